@@ -70,6 +70,49 @@ PROPS = {
         "level_note": "PARTIAL, explicitly: data-race freedom in the sense of the Go memory model and correct bracketing of pooled digesters/buffers are properties of executions; they are observed on the sampled schedules only (race detector + concurrent-vs-alone comparison), not proved." + GEN_NOTE,
         "technique": "Coq proof of order-independence (permutation arguments) + race-detector build and concurrent-vs-sequential comparison on the implementation",
     },
+    "C08": {
+        "props": ["props/C08.v"],
+        "coq_module": "StorageTrace", "coq_check": "chk_storage",
+        "runs": two_tier(st_pair("C08", 600, 6000), sched_run("cache", "C08", ["-n", "50", "-steps", "100"], ["-n", "600", "-steps", "150"], timeout=2400)),
+        "search": [{"cmd": ["cache", "-prop", "C08", "-n", "150", "-steps", "120"]}],
+        "trusted_base": STORAGE_TB,
+        "level_text": "Proved over the storage model: for every client history and every insertion of {fault-free commit of either kind, drop cache, batch preload, cache-bypassing read, is-loaded probe, re-creation after a commit} between its operations, every client-visible answer is unchanged and both executions end with the same view (C08_schedule_transparent); a final commit leaves the same owned registers (C08_same_registers). Tie: lock-step storage histories; container-level: each array/map history is run under 9 schedules (never commit .. commit+drop cache after every op, reopen every 3rd op, preload, relaxed commit), per-step fingerprints of everything the library returns and final registers byte-compared.",
+        "level_note": "PARTIAL, explicitly: the Go code shares slab OBJECTS by pointer between cache, write set and container handles; stale cached sizes or a missing dirty mark on a freshly decoded copy are aliasing effects that the value-semantics model cannot exhibit. The schedules on the implementation probe exactly that; the decoders' recomputation of cached fields is proved in C06/C07 (decoded slab = encoded slab)." + GEN_NOTE,
+        "technique": "Coq proof (simulation between a history and its scheduled variants over the storage model) + cross-schedule differential execution of the implementation",
+    },
+    "C07": {
+        "props": ["props/C07.v"],
+        "coq_module": "CodecTrace", "coq_check": "chk_codec",
+        "runs": {"quick": [{"cmd": ["codec", "-prop", "C07", "-n", "100", "-steps", "200"], "engine": "codec", "coq_sample": 3}],
+                 "thorough": [{"cmd": ["codec", "-prop", "C07", "-n", "1500", "-steps", "200", "-mode", "thorough"], "engine": "codec", "coq_sample": 10, "timeout": 2400}]},
+        "search": [{"cmd": ["codec", "-prop", "C07", "-n", "300", "-steps", "200"]}],
+        "trusted_base": ["model: coq/theories/Codec.v — byte-level encoder AND decoder (version 1) of array/map index slabs, storable slabs, array data slabs, map data slabs (hkey elements, single elements, nested inline collision groups, external groups, list mode), elements Uint8/16/32/64Value, StringValue, SlabIDStorable, SomeStorable; constants regenerated from flag.go/cbor_tag_nums.go/size consts (coq/gen/CodecConsts.v, Consts.v). NOT in the model: inlined children, shared inlined-extra-data section, compact maps, version-0 decoders (Go-side oracles only)"],
+        "level_text": "Proved for every well-formed slab of the modelled kinds: decode(encode s) = s (C07_decode_encode), re-encoding is byte-identical (C07_reencode), the three raw-byte flags describe the content (C07_flags), trailing bytes are rejected by the decoders that check (C07_no_trailing), canonical form of fixed-layout slabs (C07_decode_canonical). Tie: for every slab of every state visited by nested histories the model must produce the SAME BYTES as EncodeSlab from a structural dump and decode them back; Go-side oracles (decode->re-encode equality, content equality, flags vs content, VerifyArray/MapSerialization) cover ALL slabs including inlined children and compact maps.",
+        "level_note": "PARTIAL: slabs with inlined children / compact maps are covered by the Go-side oracles only (C07_compact_content not proved). Observations (not violations): map data slab and storable slab decoders accept trailing bytes; undefined head bits and non-shortest CBOR heads are accepted on input." + GEN_NOTE,
+        "technique": "Coq proof (structural induction, 'decoder consumes exactly what the encoder produced' lemmas per syntactic category) + byte-for-byte lock-step with EncodeSlab/DecodeSlab",
+    },
+    "C06": {
+        "props": ["props/C06.v"],
+        "coq_module": "CodecTrace", "coq_check": "chk_codec",
+        "runs": {"quick": [{"cmd": ["codec", "-prop", "C06", "-n", "100", "-steps", "200"], "engine": "codec", "coq_sample": 3}],
+                 "thorough": [{"cmd": ["codec", "-prop", "C06", "-n", "1500", "-steps", "200", "-mode", "thorough"], "engine": "codec", "coq_sample": 10, "timeout": 2400}]},
+        "search": [{"cmd": ["codec", "-prop", "C06", "-n", "300", "-steps", "200"]}],
+        "trusted_base": ["model: coq/theories/Codec.v (see C07); slab_size is computed from the generated prefix constants exactly as getPrefixSize/ByteSize account it"],
+        "level_text": "Proved for every well-formed slab of the modelled kinds: length(encode s) + omitted_next s = slab_size s + length(extra data) with omitted_next in {0,16} and 16 exactly for a non-root data slab with empty sibling link (C06_size_is_encoded_length, C06_only_documented_savings), the decoder recomputes the same size (C06_decoded_size), per-storable and per-element sizes equal encoded lengths. A changed prefix constant in Go regenerates Consts.v and breaks these proofs. That the incrementally maintained header sizes equal prefix + sum of element sizes is part of the array invariant (C05). Tie: byte-for-byte lock-step; Go-side exact equation len - extra - inlinedExtra + omittedNext + compactSaving == ByteSize on every slab, including inlined/compact ones.",
+        "level_note": "PARTIAL: compact-map hoisting and inlined children are checked by the Go-side equation only, not by a theorem." + GEN_NOTE,
+        "technique": "Coq proof (length of the encoder's output by structural induction over generated constants) + byte-for-byte lock-step with the implementation",
+    },
+    "C12": {
+        "props": ["props/C12.v", "props/C02_elems.v"],
+        "coq_module": "MapTrace", "coq_check": "chk_mapelems",
+        "runs": {"quick": [{"cmd": ["mapelems", "-prop", "C12", "-n", "300", "-steps", "300"], "engine": "mapelems", "coq_sample": 4}],
+                 "thorough": [{"cmd": ["mapelems", "-prop", "C12", "-n", "6000", "-steps", "300"], "engine": "mapelems", "coq_sample": 20, "timeout": 2400}]},
+        "search": [{"cmd": ["mapelems", "-prop", "C12", "-n", "1500", "-steps", "300"]}],
+        "trusted_base": ["model: coq/theories/MapElems.v — the ELEMENT level of OrderedMap (hkeyElements, singleElements list mode, singleElement, inline/external collision groups: the binary searches, the four insert cases, collision-limit check, re-hashing one level deeper, spill, collapse, cached sizes, count, pop, next-key), as one logical hkeyElements at level 0; digests are an arbitrary function dg; distribution of elements over data/index slabs is NOT in this model (checked by VerifyMap in the harness)"],
+        "level_text": "Proved for EVERY digest assignment dg, every collision limit, every inline-element bound and every number of digest levels: from the empty map every operation history gives the dictionary's answers and keeps the structure well-formed (C02_elems_refines_dictionary, C12_structure_preserved); an absent key is refused with the collision-limit error exactly when limit+1 <= number of distinct second-level digests under its first-level digest, and then nothing changes (C12_limit_enforced); updates are always accepted (C12_updates_accepted); group shapes, spill rule, inline-group bound (C12_group_shapes, C12_spill_rule, C12_inline_groups_bounded). Tie: table-driven adversarial digesters (alphabets 1..4 per level), limits {0,1,2,3,255}; per step the answer and the whole element structure (shape for shape) are compared with the model; oracle: shadow map, refusal formula from the digest table, VerifyMap, health.",
+        "level_note": "Element level: how elements are distributed over map data slabs and index slabs is not part of this model (the in-repo VerifyMap checks it in the harness after every mutation)." + GEN_NOTE,
+        "technique": "Coq proof (invariant + refinement to an ordered dictionary, for all digest functions) + shape-for-shape lock-step with the implementation under adversarial digesters",
+    },
     "C20": {
         "props": ["props/C20.v"],
         "coq_module": "HealthTrace", "coq_check": "chk_health",
@@ -84,4 +127,4 @@ PROPS = {
 }
 
 NOT_APPLICABLE = {p: "not yet built in this revision (work in progress; see DESIGN.md section 6 build order)" for p in
-                  ["C01","C02","C05","C06","C07","C08","C09","C10","C11","C12","C13","C17","C18","C19"]}
+                  ["C01","C02","C05","C09","C10","C11","C13","C17","C18","C19"]}
